@@ -1659,8 +1659,53 @@ func ruleFindRoot(c *Ctx) []Obligation {
 	ctx := resolveArg(calls[0].Common().Args[0])
 	_, f, base := loadedField(ctx)
 	var obs []Obligation
+	// … or the receiver's node with a fallback that is consulted only while no node was found yet (an entry made on
+	// demand has none: the nearest ancestor's is taken)
+	fallbackOK := false
+	if phi0, isPhi := ctx.(*ssa.Phi); isPhi {
+		web := map[ssa.Value]bool{}
+		var leaves []ssa.Value
+		var walk func(v ssa.Value)
+		walk = func(v ssa.Value) {
+			if web[v] {
+				return
+			}
+			web[v] = true
+			if p, isP := v.(*ssa.Phi); isP {
+				for _, e := range p.Edges {
+					walk(e)
+				}
+				return
+			}
+			leaves = append(leaves, v)
+		}
+		walk(phi0)
+		fromRecv, othersGuarded := false, true
+		for _, l := range leaves {
+			_, lf, lb := loadedField(l)
+			if lf == m.fNode && isParamN(find, lb, 0) {
+				fromRecv = true
+				continue
+			}
+			in, isIn := l.(ssa.Instruction)
+			guarded := false
+			if lf == m.fNode && isIn {
+				for _, g := range guardsAt(in.Block()) {
+					if x, isEq, okn := nilTest(g.Cond); okn && web[x] && isEq == g.Branch {
+						guarded = true
+					}
+				}
+			}
+			if !guarded {
+				othersGuarded = false
+			}
+		}
+		fallbackOK = fromRecv && othersGuarded
+	}
 	if f == m.fNode && isParamN(find, base, 0) {
 		obs = append(obs, ok(R, con, c.InstrPos(calls[0]), "contextNode := e.Node taken from the receiver, not from the climbed root"))
+	} else if fallbackOK {
+		obs = append(obs, ok(R, con, c.InstrPos(calls[0]), "the receiver's node, or — only while that is nil — the node of an ancestor"))
 	} else {
 		obs = append(obs, bad(R, con, c.InstrPos(calls[0]), "the prefix is resolved from the root entry's node: prefixes that only the starting node's module imports would not resolve"))
 	}
